@@ -159,8 +159,12 @@ var (
 // handler executes the current history on the context's own ResponseWriter.
 func rwFlame() *flamego.Flame {
 	if theFlame == nil {
+		flamego.SetEnv(flamego.EnvTypeProd) // no stack pages: this engine is about the writer, and rendering one costs a millisecond
 		f := flamego.NewWithLogger(world.Sink{})
 		f.Any("/h", func(c flamego.Context) { histBody(c) })
+		// the same behind Recovery: a history may be cut short by a panic out of the handler, and
+		// what Recovery then does to the writer (status 500, a body) continues the history
+		f.Any("/r", flamego.Recovery(), func(c flamego.Context) { histBody(c) })
 		theFlame = f
 	}
 	return theFlame
@@ -315,6 +319,15 @@ func (Engine) Run(t *tape.Tape, o eng.Opts) *eng.Result {
 	// touches the writer (what a method-override middleware does); the request that arrived
 	// keeps deciding whether body bytes may be forwarded.
 	rewriteMethod := viaFlame && sw.Intn(3) == 1
+	// One via-Flame history in three is cut short: after a prefix of its operations the handler
+	// panics, and Recovery (in front of it) finishes the response. The statement speaks of every
+	// sequence of operations, whoever issues them: hooks registered by the handler must still run
+	// once before Recovery's status reaches the underlying writer, and Status/Written/Size must be
+	// truthful when ServeHTTP returns.
+	panicOut := viaFlame && sw.Intn(3) == 1
+	if panicOut && len(ops) > 1 {
+		ops = ops[:1+gen.Intn(len(ops))]
+	}
 	if stacked {
 		w = flamego.NewResponseWriter(method, flamego.NewResponseWriter("GET", under))
 		res.Probes["stacked_wrappers"]++
@@ -488,6 +501,10 @@ func (Engine) Run(t *tape.Tape, o eng.Opts) *eng.Result {
 			}
 		}
 		compRun(len(ops))
+		if panicOut {
+			curOp = len(ops)
+			panic("the handler gives up (history cut short)")
+		}
 	}
 	bulkWrites := 0
 	if bulk {
@@ -554,7 +571,19 @@ func (Engine) Run(t *tape.Tape, o eng.Opts) *eng.Result {
 					}
 					writer()
 				}
-				rwFlame().ServeHTTP(under, &http.Request{Method: method, URL: &url.URL{Path: "/h"}, Header: http.Header{}, Proto: "HTTP/1.1", ProtoMajor: 1, ProtoMinor: 1, Host: "sim", RequestURI: "/h"})
+				path := "/h"
+				if panicOut {
+					path = "/r"
+					res.Probes["histories_cut_short_by_a_panic_behind_recovery"]++
+				}
+				rwFlame().ServeHTTP(under, &http.Request{Method: method, URL: &url.URL{Path: path}, Header: http.Header{}, Proto: "HTTP/1.1", ProtoMajor: 1, ProtoMinor: 1, Host: "sim", RequestURI: path})
+				if panicOut && w != nil {
+					// what Recovery did is part of the history: the accessors are truthful at the end
+					want := len(spy.Body)
+					if w.Status() != spy.Code || w.Written() != (spy.Code != 0) || w.Size() != want {
+						q.Note("FAIL status-truth: after Recovery finished the response Status()/Written()/Size() = " + itoa(w.Status()) + "/" + b2s(w.Written()) + "/" + itoa(w.Size()) + " but the underlying writer holds status " + itoa(spy.Code) + " and " + itoa(want) + " body bytes")
+					}
+				}
 				res.Probes["histories_through_flame"]++
 			} else {
 				writer()
@@ -756,6 +785,9 @@ func (Engine) Run(t *tape.Tape, o eng.Opts) *eng.Result {
 				trig = i
 				break
 			}
+		}
+		if trig < 0 && panicOut {
+			trig = len(recs) // the status was sent after the last operation of the handler, by Recovery
 		}
 		for id, at := range regAt {
 			if at < trig && seenHook[id] == 0 {
